@@ -34,6 +34,7 @@ def case_st(draw):
         # pad the listing (with REM lines) to an exact length around the 4096-byte stdio buffer
         c["target_len"] = draw(st.sampled_from([None, None, 4095, 4096, 4097, 4098, 8192, 8193, 12289, 16385]))
         c["listo"] = draw(st.integers(0, 7))
+        c["trailing"] = draw(st.sampled_from([b"", b"", b"\x00", b"\x0d", b"trailing junk", b"\xff" * 300]))
     return c
 
 
@@ -231,7 +232,10 @@ class C11(CheckBase):
                         text = max(0, text - indent_probe)
                     lines.append((1, b"\xF4" + b"x" * text))
                     cur += indent_probe + text
-        data = rb.serialise(prog["dialect"], lines)
+        # bytes after the end-of-program marker: the tool lists the program, warns on stderr and still succeeds
+        # (little-endian framing only; with the big-endian framing anything after 0D FF is an error)
+        trailing = bytes(case.get("trailing") or b"") if rb.CANON[prog["dialect"]] not in rb.BIG_ENDIAN else b""
+        data = rb.serialise(prog["dialect"], lines) + trailing
         p = sb.file("p.bbc", data)
         d = prog["dialect"]
         cmd = case["cmd"]
